@@ -18,6 +18,7 @@ import (
 	"errors"
 	"fmt"
 	"math"
+	"path"
 	"reflect"
 	"regexp"
 	"sort"
@@ -46,6 +47,9 @@ const (
 	// an update after which no rule starts at the empty key is accepted (keys below the first start key have no rule)
 	kGap = "C13/leading-gap-accepted"
 )
+
+// a group id that path cleaning alters: the group record is written to (or deleted from) another key
+const kGroupPath = "C13/group-id-path-join"
 
 func init() {
 	vkit.SilenceLog()
@@ -138,11 +142,14 @@ type Case struct {
 }
 
 var (
-	groupsU  = []string{"pd", "a", "b", "ab"}
-	idsU     = []string{"default", "r1", "r10", "r2", "x"}
-	keyTable []string // sorted, without ""
-	probes   []string // sorted unique probe keys
-	pranges  [][2]string
+	groupsU = []string{"pd", "a", "b", "ab"}
+	// group ids are free text for the API: ids that path cleaning alters (group records are stored under
+	// rule_group/<id> with the id joined as a path), ids with a slash that survive it, and harmless look-alikes
+	exoticGroups = []string{"..", "../raft", "../rules/x", "a/../b", "a/", "/a", ".", "a//b", "a/b", "a.b", "..a", "raft"}
+	idsU         = []string{"default", "r1", "r10", "r2", "x"}
+	keyTable     []string // sorted, without ""
+	probes       []string // sorted unique probe keys
+	pranges      [][2]string
 )
 
 func init() {
@@ -179,6 +186,16 @@ func init() {
 
 // ---------------------------------------------------------------- generator
 
+func genGroupID(t *rapid.T, label string) string {
+	if rapid.IntRange(0, 7).Draw(t, label+"Exotic") == 7 {
+		return rapid.SampledFrom(exoticGroups).Draw(t, label+"Value")
+	}
+	return rapid.SampledFrom(groupsU).Draw(t, label)
+}
+
+// alteredByPathCleaning: the storage key of the group's record is not rule_group/<id>
+func alteredByPathCleaning(id string) bool { return path.Join("rule_group", id) != "rule_group/"+id }
+
 func genRange(t *rapid.T) (string, string) {
 	switch rapid.IntRange(0, 9).Draw(t, "rangeKind") {
 	case 0, 1, 2:
@@ -198,7 +215,7 @@ var badKinds = []string{"hexStart", "hexEnd", "endEqStart", "endLtStart", "noID"
 
 func genRule(t *rapid.T, inBundle string) RuleSpec {
 	var r RuleSpec
-	r.Group = rapid.SampledFrom(groupsU).Draw(t, "group")
+	r.Group = genGroupID(t, "group")
 	if inBundle != "" {
 		switch rapid.IntRange(0, 9).Draw(t, "bundleGroup") {
 		case 0, 1, 2, 3:
@@ -248,7 +265,7 @@ func genIndex(t *rapid.T, usual []int, label string) int {
 }
 
 func genGroup(t *rapid.T) GroupSpec {
-	return GroupSpec{ID: rapid.SampledFrom(groupsU).Draw(t, "gid"),
+	return GroupSpec{ID: genGroupID(t, "gid"),
 		Index:    genIndex(t, []int{0, 0, 1, 2, 5, -1}, "gindex"),
 		Override: rapid.IntRange(0, 2).Draw(t, "goverride") == 2}
 }
@@ -273,7 +290,7 @@ func genOp(t *rapid.T) Op {
 	case "setRule":
 		op.Rules = []RuleSpec{genRule(t, "")}
 	case "deleteRule":
-		op.Rules = []RuleSpec{{Group: rapid.SampledFrom(groupsU).Draw(t, "group"), ID: rapid.SampledFrom(idsU).Draw(t, "id")}}
+		op.Rules = []RuleSpec{{Group: genGroupID(t, "group"), ID: rapid.SampledFrom(idsU).Draw(t, "id")}}
 		if rapid.IntRange(0, 3).Draw(t, "existing") != 3 {
 			op.Pick = rapid.IntRange(0, 1000).Draw(t, "pick")
 		}
@@ -289,9 +306,9 @@ func genOp(t *rapid.T) Op {
 			case 0, 1, 2:
 				op.Batch = append(op.Batch, BatchOp{Action: "add", Rule: genRule(t, "")})
 			case 3, 4:
-				op.Batch = append(op.Batch, BatchOp{Action: "del", Rule: RuleSpec{Group: rapid.SampledFrom(groupsU).Draw(t, "group"), ID: rapid.SampledFrom(idsU).Draw(t, "id")}})
+				op.Batch = append(op.Batch, BatchOp{Action: "del", Rule: RuleSpec{Group: genGroupID(t, "group"), ID: rapid.SampledFrom(idsU).Draw(t, "id")}})
 			default:
-				op.Batch = append(op.Batch, BatchOp{Action: "delprefix", Rule: RuleSpec{Group: rapid.SampledFrom(groupsU).Draw(t, "group"),
+				op.Batch = append(op.Batch, BatchOp{Action: "delprefix", Rule: RuleSpec{Group: genGroupID(t, "group"),
 					ID: rapid.SampledFrom([]string{"r", "r1", "r10", "d", "", "x", "1", "e", "0", "fault"}).Draw(t, "prefix")}})
 			}
 		}
@@ -299,7 +316,7 @@ func genOp(t *rapid.T) Op {
 		g := genGroup(t)
 		op.Group = &g
 	case "deleteGroup":
-		op.Pat = rapid.SampledFrom(groupsU).Draw(t, "gid")
+		op.Pat = genGroupID(t, "gid")
 	case "setBundle":
 		op.Bundles = []BundleSpec{genBundle(t)}
 	case "setAllBundles":
@@ -323,7 +340,7 @@ func genOp(t *rapid.T) Op {
 		if op.Regex {
 			op.Pat = rapid.SampledFrom([]string{"^a", "b$", "^a$", "a|b", ".*", "^(a|ab)$", "[", "pd", "^zz$"}).Draw(t, "pattern")
 		} else {
-			op.Pat = rapid.SampledFrom(append([]string{"zz"}, groupsU...)).Draw(t, "gid")
+			op.Pat = rapid.SampledFrom(append([]string{"zz", "a/", "a/b", ".."}, groupsU...)).Draw(t, "gid")
 		}
 	case "editSet":
 		if rapid.Bool().Draw(t, "existing") {
@@ -794,7 +811,7 @@ type view struct {
 }
 
 var (
-	queryGroups = append([]string{"zz"}, groupsU...)
+	queryGroups = append(append([]string{"zz"}, groupsU...), exoticGroups...)
 	pregions    []*core.RegionInfo
 	prangeNames []string
 )
@@ -1103,6 +1120,10 @@ func (f *fixture) newManager(b kv.Base) (*placement.RuleManager, error) {
 
 func newFixture(c Case) (*fixture, *model, error) {
 	f := &fixture{c: c, base: kv.NewMemoryKV()}
+	// what else a PD keeps in the same storage: must never be touched by rule updates
+	for k, v := range foreignSeed {
+		f.base.Save(k, v)
+	}
 	f.fkv = faultkv.New(f.base)
 	f.fkv.KeepLog = true
 	var stores []map[string]string
@@ -1118,6 +1139,20 @@ func newFixture(c Case) (*fixture, *model, error) {
 	def := &mrule{inRule: inRule{Group: "pd", ID: "default", Role: "voter", Count: c.MaxReplica, Loc: append([]string(nil), c.Loc...)}}
 	m.rules[def.key()] = def
 	return f, m, nil
+}
+
+var foreignSeed = map[string]string{"raft": "sentinel: cluster meta", "config": "sentinel: configuration", "gc/safe_point": "sentinel: gc safe point",
+	"rule": "sentinel", "rulez/x": "sentinel", "timestamp": "sentinel"}
+
+// everything in the storage outside the rules/ and rule_group/ prefixes
+func foreignKeys(b kv.Base) map[string]string {
+	out := map[string]string{}
+	for k, v := range faultkv.Dump(b) {
+		if !strings.HasPrefix(k, "rules/") && !strings.HasPrefix(k, "rule_group/") {
+			out[k] = v
+		}
+	}
+	return out
 }
 
 // a copy of the storage content, for a restart that must not disturb the history
@@ -1138,7 +1173,10 @@ func legacyKey(k [2]string, style int) string {
 	canon := ruleStoreKey(k)
 	switch style % 3 {
 	case 0:
-		return "rules/" + k[0] + "-" + k[1]
+		// (ids with path elements could never be written un-hexed: such rules get the suffix style)
+		if plain := k[0] + "-" + k[1]; path.Join("rules", plain) == "rules/"+plain {
+			return "rules/" + plain
+		}
 	case 1:
 		return "rules/" + "00old-" + strings.TrimPrefix(canon, "rules/")
 	}
@@ -1534,6 +1572,9 @@ func runCase(c Case) (vkit.Info, error) {
 		if err := diffViews(realView(f.mgr), want.view()); err != nil {
 			return fmt.Errorf("%s: %v", when, err)
 		}
+		if got := foreignKeys(f.base); !reflect.DeepEqual(got, foreignSeed) {
+			return fmt.Errorf("%s: storage keys outside rules/ and rule_group/ changed: now %q, before %q", when, got, foreignSeed)
+		}
 		return nil
 	}
 	// a manager started from a copy of the storage observes what is being served; only the keys in doubt are left out
@@ -1541,6 +1582,10 @@ func runCase(c Case) (vkit.Info, error) {
 		snap := f.snapshot()
 		moved := 0
 		if len(doubt) == 0 {
+			// every served rule and every served non-default group is stored exactly once, under its own key
+			if err := diffKeys(storedKeysOf(snap), want.expectedKeys()); err != nil {
+				return fmt.Errorf("%s: %v", when, err)
+			}
 			moved = relocate(snap, want, lg, lg.Style)
 		}
 		if len(doubt) > 0 {
@@ -1584,7 +1629,7 @@ func runCase(c Case) (vkit.Info, error) {
 		if err != nil {
 			return nil // documented residual: half-written update in the storage
 		}
-		for _, g := range groupsU {
+		for _, g := range queryGroups {
 			for _, id := range idsU {
 				k := [2]string{g, id}
 				if doubt[ruleStoreKey(k)] {
@@ -1719,6 +1764,17 @@ func runCase(c Case) (vkit.Info, error) {
 				continue
 			}
 			reject = "no rule for the keys below the first start key"
+		}
+		if reject == "" {
+			for id, g := range u.patch.groups {
+				if alteredByPathCleaning(id) && g != m.group(id) {
+					reject = fmt.Sprintf("the record of group %q would not be stored under rule_group/%s", id, id)
+				}
+			}
+			if reject != "" && vkit.Known(kGroupPath) {
+				info.Exclude(kGroupPath)
+				continue
+			}
 		}
 		enumerate := true
 		if m.reindexesServedRules(u.patch) && vkit.Known(kAdjust) {
